@@ -121,7 +121,7 @@ Lemma RJ_mono s l s' r :
   step true l s = Some s' -> ResultJustified s r -> ResultJustified s' r.
 Proof.
   intros H HR. destruct (step_mono _ _ _ H) as [Hn Hm].
-  destruct r as [| |[| |x]]; cbn in *; auto.
+  destruct r as [| |[| |x]|]; cbn in *; auto.
   - destruct HR as (e & He & Hg). exists e. split; [lia|]. now apply (Hm e He).
   - destruct HR as (e & He & Hg). exists e. split; [lia|]. now apply (Hm e He).
   - destruct HR as (e & He & Hc & Hw). exists e. split; [lia|].
@@ -259,7 +259,7 @@ Qed.
 
 Lemma wres_eqb_eq a b : wres_eqb a b = true -> a = b.
 Proof.
-  destruct a as [| |[| |[]]], b as [| |[| |[]]]; cbn; intros; try discriminate; reflexivity.
+  destruct a as [| |[| |[]]|], b as [| |[| |[]]|]; cbn; intros; try discriminate; reflexivity.
 Qed.
 
 Lemma ps_ok_active p : ps_ok p = true -> active p = true -> g_ok p = true.
@@ -379,18 +379,21 @@ Qed.
 Lemma ahead_dist c : notify_ahead c = true -> 0 < wdist c.
 Proof. destruct c; cbn; intros; try discriminate; lia. Qed.
 
-(** any other step leaves worker e where it is and an unnotified caller of e unnotified *)
+(** any other step leaves worker e where it is and an unnotified caller of e unnotified (unless
+    that caller gives up) *)
 Lemma other_step s l s' e :
   Inv s -> step true l s = Some s' -> progress_of e l = false -> e < nps s ->
-  wc (pss s' e) = wc (pss s e) /\ forall i, wts s i = AReg e false -> wts s' i = AReg e false.
+  wc (pss s' e) = wc (pss s e) /\
+  forall i, wts s i = AReg e false -> wts s' i = AReg e false \/ passed (wts s' i) = true.
 Proof.
   intros I H Hp He.
   destruct l; cbn in Hp; step_inv H; cbn [wts pss set_w set_p set_wts remove_entry] in *; bool_hyps;
     try (apply Nat.eqb_neq in Hp);
     (split; [unfold upd; try (destruct (Nat.eqb_spec e e0); [subst; try congruence; try lia|]); try reflexivity|]).
-  all: try (intros i' Hi'; unfold upd; destruct (Nat.eqb_spec i' i); [subst i'; congruence|exact Hi']).
-  all: try (intros i' Hi'; exact Hi').
-  all: try (intros i' Hi'; unfold notify; rewrite Hi'; destruct (Nat.eqb_spec e e0); [congruence|reflexivity]).
+  all: try (intros i' Hi'; unfold upd; destruct (Nat.eqb_spec i' i);
+            [subst i'; first [congruence | right; reflexivity]|left; exact Hi']).
+  all: try (intros i' Hi'; left; exact Hi').
+  all: try (intros i' Hi'; left; unfold notify; rewrite Hi'; destruct (Nat.eqb_spec e e0); [congruence|reflexivity]).
   all: try (destruct (Nat.eqb_spec e (nps s)); [lia|reflexivity]).
   all: cbn; congruence.
 Qed.
@@ -440,13 +443,14 @@ Proof.
       * eapply (IH s1 s' i e I1 H); [rewrite Hsame; exact Hw|].
         cbn [length] in Hd. unfold count_l. lia.
     + destruct (other_step _ _ _ _ I Hs Hp He) as [Hwc Hk].
-      eapply (IH s1 s' i e I1 H); [apply Hk; exact Hw|]. rewrite Hwc. exact Hd.
+      destruct (Hk i Hw) as [Hk1|Hk1]; [|eapply passed_run; eauto].
+      eapply (IH s1 s' i e I1 H); [exact Hk1|]. rewrite Hwc. exact Hd.
 Qed.
 
 
 (** * enabledness: nobody who has something to do is blocked *)
 Lemma wres_eqb_refl r : wres_eqb r r = true.
-Proof. destruct r as [| |[| |[]]]; reflexivity. Qed.
+Proof. destruct r as [| |[| |[]]|]; reflexivity. Qed.
 
 (** a worker with a notifying block ahead always has an enabled non-store step; in [WFetching]
     that step is the completion of the lookup -- the explicit premise "the lookup terminates" *)
@@ -477,7 +481,7 @@ Proof.
   - destruct (alive s && has_entry s) eqn:Hc.
     + exists (LExitRemove e). eexists. split; [cbn; apply Nat.eqb_refl|].
       unfold step; cbv zeta. rewrite He, Hw. cbn [chk]. rewrite Hc. reflexivity.
-    + exists (LExitBlock e). eexists. split; [cbn; apply Nat.eqb_refl|].
+    + exists (LExitSkip e). eexists. split; [cbn; apply Nat.eqb_refl|].
       unfold step; cbv zeta. rewrite He, Hw. cbn [chk].
       replace (negb (alive s) || negb (has_entry s)) with true
         by (destruct (alive s), (has_entry s); cbn in *; congruence). reflexivity.
@@ -583,7 +587,7 @@ Proof.
     unfold step; cbv zeta. rewrite He, Hw, Hd. reflexivity.
   - exists (LQuit e XMgrDropped). eexists. split; [cbn; apply Nat.eqb_refl|].
     unfold step; cbv zeta. rewrite He, Hw, Hd. reflexivity.
-  - exists (LExitBlock e). eexists. split; [cbn; apply Nat.eqb_refl|].
+  - exists (LExitSkip e). eexists. split; [cbn; apply Nat.eqb_refl|].
     unfold step; cbv zeta. rewrite He, Hw, Hd. reflexivity.
   - exists (LExitBlock e). eexists. split; [cbn; apply Nat.eqb_refl|].
     unfold step; cbv zeta. rewrite He, Hw. reflexivity.
@@ -630,3 +634,88 @@ Proof.
   - destruct (step true l s) as [s1|] eqn:Hs; [|discriminate]. eapply IH; [|exact H].
     econstructor; eauto.
 Qed.
+
+(** when no worker has a notifying block ahead (all sleeping, between lookups, or gone) nobody
+    is waiting for a notification *)
+Lemma quiescent_nobody_waits s :
+  Inv s -> (forall e, e < nps s -> notify_ahead (wc (pss s e)) = false) ->
+  forall i e, wts s i <> AReg e false.
+Proof.
+  intros I Hq i e Hw. destruct (Inv_no_lost_wakeup _ I i e Hw) as [He Ha].
+  rewrite (Hq e He) in Ha. discriminate.
+Qed.
+
+Lemma chk_relax b : chk true b = true -> chk false b = true.
+Proof. reflexivity. Qed.
+
+(** the relaxed semantics (used for multi-thread traces) accepts every strict trace *)
+Lemma strict_step_relaxed l s s' : step true l s = Some s' -> step false l s = Some s'.
+Proof.
+  destruct l; unfold step, chk; cbv zeta; intros H;
+    repeat match type of H with
+           | context [match ?x with _ => _ end] =>
+             let E := fresh "E" in destruct x eqn:E; try discriminate H
+           end;
+    bool_hyps;
+    repeat match goal with
+           | E : ?x = _ |- context [?x] =>
+             lazymatch x with true => fail | false => fail | _ => rewrite E end
+           end; cbn [andb orb negb]; try rewrite ?andb_true_r;
+    repeat match goal with
+           | E : (?a <? ?b) = true |- _ => fail 1
+           | E : ?a < ?b |- context [?a <? ?b] => rewrite (proj2 (Nat.ltb_lt a b) E)
+           end;
+    try rewrite Nat.eqb_refl; cbn [andb orb negb]; try exact H; try reflexivity.
+  - destruct (wc (pss s e)); try discriminate H0; reflexivity.
+  - destruct (wc (pss s e)); try discriminate H0; destruct r; try discriminate; try discriminate H0; reflexivity.
+Qed.
+
+(** * from woken to released: at most three steps of the caller itself *)
+Definition cdist (w : wst) : nat :=
+  match w with AReg _ true => 3 | AAwaited _ => 2 | ALoaded2 _ => 1 | _ => 0 end.
+Definition is_caller (i : nat) (l : label) : bool :=
+  match caller_of l with Some j => Nat.eqb j i | None => false end.
+
+Lemma caller_step s l s' i :
+  step true l s = Some s' -> passed (wts s i) = true ->
+  if is_caller i l then cdist (wts s' i) < cdist (wts s i) else wts s' i = wts s i.
+Proof.
+  intros H Hp.
+  destruct l; unfold is_caller; cbn [caller_of];
+    step_inv H; cbn [wts set_w set_p set_wts remove_entry] in *; bool_hyps;
+    try reflexivity;
+    try (unfold notify; destruct (wts s i) as [| | | |e' [|]| | | | |]; try discriminate Hp; reflexivity);
+    unfold upd; destruct (Nat.eqb_spec i0 i); try subst i0;
+    try (destruct (Nat.eqb_spec i i0); [congruence|]); try rewrite Nat.eqb_refl; try reflexivity;
+    try (match goal with Hw : wts _ i = _ |- _ => rewrite Hw in *; try discriminate Hp end);
+    try (destruct got); cbn; try lia; try reflexivity.
+  destruct notified; [lia|discriminate Hp].
+Qed.
+
+Lemma released_within_run tr : forall s s' i,
+  run true tr s = Some s' -> passed (wts s i) = true ->
+  cdist (wts s i) <= count_l (is_caller i) tr -> exists r, wts s' i = ADone r.
+Proof.
+  induction tr as [|l tr IH]; intros s s' i H Hp Hc.
+  - cbn in H. injection H as <-. cbn in Hc.
+    destruct (wts s i) as [| | | |e [|]| | | | |r]; try discriminate Hp; cbn in Hc; try lia. eauto.
+  - cbn in H. destruct (step true l s) as [s1|] eqn:Hs; [|discriminate].
+    pose proof (caller_step _ _ _ i Hs Hp) as Hk. pose proof (passed_step _ _ _ i Hs Hp) as Hp1.
+    unfold count_l in Hc. cbn [filter] in Hc.
+    apply (IH s1 s' i H Hp1). unfold count_l.
+    destruct (is_caller i l); [cbn [length] in Hc; lia|rewrite Hk; exact Hc].
+Qed.
+
+(** example runs used for the non-vacuity examples of [Props] *)
+Definition ex_prefix : list label :=
+  [LPeek 0 KPath false; LEnsure 0 true 0; LLoad1 0 false; LCheck 0 false;
+   LPeek 1 KPath false; LEnsure 1 false 0; LBegin 0; LLoad1 1 false; LCheck 1 false;
+   LPeek 2 KPath false; LEnsure 2 false 0; LLoad1 2 false; LCheck 2 false].
+Definition ex_suffix : list label :=
+  [LFetched 0 FOk; LSetErr 0; LSlot 0 true; LComplete 0; LWake 1; LLoad2 1 true].
+Definition ex_drop_prefix : list label :=
+  [LPeek 0 KCached false; LContains 0 false; LEnsure 0 true 0; LBegin 0; LFetched 0 FEmpty; LSetErr 0;
+   LComplete 0; LRelease 0; LStop; LPeek 1 KCached false; LContains 1 false; LEnsure 1 true 1; LDrop].
+Definition ex_drop_suffix : list label :=
+  [LQuit 1 XMgrDropped; LQuit 0 XCancelled; LExitSkip 0; LExitSkip 1; LExitBlock 0; LExitBlock 1;
+   LExitClear 1; LExitClear 0].
